@@ -90,9 +90,7 @@ CHECKS = {
 }
 
 NOT_APPLICABLE = {
-    "C09": "check under construction (E-value engine); will be claimed once built",
     "C19": "check under construction (feature-configuration driver); will be claimed once built",
-    "C20": "check under construction (E-value engine); will be claimed once built",
 }
 
 
